@@ -177,8 +177,14 @@ def run_case(case, acc, report_prop='C09'):
                 rec['universe'] = list(configured)        # judged against the universe as configured, not as the object now answers
             # working out the orders does not change what the broker reports as held (read before anything is submitted
             # or the clock moves on): the same assets and quantities as the portfolio's own report, no zero entries
-            rep = {a: d['quantity'] for a, d in broker.get_portfolio_as_dict('P').items()}
-            own = {a: d['quantity'] for a, d in broker.portfolios['P'].portfolio_to_dict().items()}
+            report_ = broker.get_portfolio_as_dict('P')
+            rep = {a: d['quantity'] for a, d in report_.items()}
+            for d_ in report_.values():
+                d_['quantity'] = 10 ** 6          # the caller projects its own numbers onto ITS copy of the report
+            try:
+                own = {a: d['quantity'] for a, d in broker.portfolios['P'].portfolio_to_dict().items()}
+            except KeyError:
+                own = None
             if qts is None and (rep != own or any(q == 0 for q in rep.values()) or rep != {a: q for a, q in rec['held'].items()}):
                 raise Violation(report_prop, 'holdings-report-after-rebalance', 'after portfolio construction at step %d (nothing submitted '
                                 'yet) broker.get_portfolio_as_dict reports %s; the portfolio holds %s' % (i, rep, own), {})
